@@ -426,6 +426,66 @@ def check(ctx: Ctx) -> None:
         if not found:
             ob.site(ss, main, "no execnet import on the stand-alone path")
 
+    # ---- C15.j names imported from the standard library exist on an older supported interpreter too
+    with ctx.obligation("C15.j", "stdlib-names-portable") as ob:
+        from ..closure import oldest_stdlib_root, stdlib_exports
+        old = oldest_stdlib_root()
+        if old is None:
+            ob.site(gb, None, "no older standard library is present as source on this machine: not decided here")
+        else:
+            ver, root = old
+            nchk = nund = 0
+            for mod in [gb, repo.module("gateway_socket")]:
+                for st in ast.walk(mod.tree):
+                    if not isinstance(st, ast.ImportFrom) or st.level or (st.module or "").split(".")[0] not in STDLIB or st.module == "__future__":
+                        continue
+                    anc = list(repo.ancestors(st))
+                    if any(isinstance(a, ast.If) and "TYPE_CHECKING" in unparse(a.test) for a in anc):
+                        continue  # never executed
+                    if any(isinstance(a, ast.Try) and any(h.type is not None and "ImportError" in unparse(h.type) for h in a.handlers) for a in anc):
+                        continue  # probed
+                    exp = stdlib_exports(root, st.module)
+                    for a in st.names:
+                        if a.name == "*":
+                            continue
+                        if exp is None:
+                            nund += 1
+                            continue
+                        nchk += 1
+                        if a.name not in exp:
+                            ob.violation(mod, st, f"shipped module {mod.name} imports `{a.name}` from `{st.module}`, which the standard library of Python {ver} does not provide "
+                                                  f"(read from its source under {root}): the transmitted source fails with ImportError on such an interpreter although "
+                                                  "execnet supports it", construct=f"from {st.module} import {a.name}")
+            ob.site(gb, None, f"names imported from the standard library by the shipped sources exist in Python {ver} too", checked=nchk, undecided=nund)
+            ob.require(nchk >= 5, f"{nchk} stdlib from-imports checked (floor 5)")
+
+    # ---- C15.i the shipped text survives the bootstrap channel whatever the remote locale is
+    with ctx.obligation("C15.i", "shipped-source-ascii") as ob:
+        # sendexec writes repr(source) as UTF-8, the popen bootstrap line reads it with sys.stdin.readline() in *text* mode,
+        # i.e. in the remote interpreter's locale encoding; repr() leaves non-ASCII characters as they are -- only an ASCII
+        # source decodes identically under every locale (C / legacy code pages on a bare interpreter)
+        nsrc = 0
+        for fname in ("bootstrap_exec", "bootstrap_socket"):
+            f = repo.func(f"gateway_bootstrap.{fname}")
+            calls = [c for c in repo.calls_in(f) if isinstance(c.func, ast.Name) and c.func.id == "sendexec"]
+            for a in (sendexec_parts(repo, f, calls[0]) if calls else []):
+                if isinstance(a, ast.Call) and unparse(a.func) == "inspect.getsource" and a.args:
+                    nm = unparse(a.args[0]).split(".")[-1]
+                    mod = repo.modules.get(nm) or next((m for m in repo.modules.values() if nm in m.classes), None)
+                    if mod is None:
+                        continue
+                    nsrc += 1
+                    bad = [(i + 1, ch) for i, line in enumerate(mod.source.splitlines()) for ch in line if ord(ch) > 127]
+                    ob.site(f, a, f"{fname} ships the text of {mod.name}: pure ASCII", non_ascii=len(bad))
+                    if bad:
+                        ln, ch = bad[0]
+                        ob.violation(mod, ast.Pass(lineno=ln, col_offset=0), f"shipped module {mod.name} contains the non-ASCII character {ch!r} (line {ln}): the repr()'d bootstrap "
+                                                                             "line is read in the remote locale's encoding and no longer evaluates on an interpreter whose stdin is not UTF-8",
+                                     construct=f"non-ASCII {ch!r} in {mod.name}")
+                elif isinstance(a, ast.Constant) and isinstance(a.value, str) and not a.value.isascii():
+                    ob.violation(f, a, "a bootstrap fragment contains non-ASCII text")
+        ob.require(nsrc >= 2, f"{nsrc} shipped sources found in the bootstrap functions (floor 2)")
+
     # ---- C15.h namespace agreement
     with ctx.obligation("C15.h", "namespace-agreement") as ob:
         io_mod = repo.module("gateway_io")
